@@ -101,6 +101,9 @@ class TriggerHandler:
         # if we call settrace we cannot use debugger,
         # so we allow the settrace to be disabled, so we can at least debug around it
         self.__shutdown = False
+        # work left pending when we were shut down (its end was never seen) must not be completed by whatever thread
+        # comes to use the same thread id after a restart
+        self._callbacks.clear_all()
         if self._config.NO_TRACE:
             return
         self.__old_sys_trace = sys.gettrace()
